@@ -213,6 +213,36 @@ func (vc *VC) Solve(dir string, quickMs int, raceS int) {
 		}(i, o, st)
 	}
 	wg.Wait()
+	if vc.cross {
+		// thorough tier: every obligation the first solver discharged is put to the other solvers too;
+		// a `sat` from any of them is a solver disagreement (engine error), never a pass
+		for i, o := range obls {
+			if o.Status != "discharged" || o.Cover {
+				continue
+			}
+			wg.Add(1)
+			go func(i int, o *Obl) {
+				defer wg.Done()
+				sem <- struct{}{}
+				defer func() { <-sem }()
+				file := fmt.Sprintf("%s.x%d.smt2", base, i)
+				os.WriteFile(file, []byte(vc.singleScript(o, false)), 0o644)
+				for _, s := range solvers {
+					if s.Name == o.Solver {
+						continue
+					}
+					out, _ := runSolver(context.Background(), s, file, 20)
+					st := firstStatus(out)
+					o.Cross = append(o.Cross, s.Name+":"+st)
+					if st == "sat" {
+						o.Status = "solver-disagreement"
+						o.Model = s.Name + " reports sat where " + o.Solver + " reported unsat\n" + out
+					}
+				}
+			}(i, o)
+		}
+		wg.Wait()
+	}
 }
 
 func (vc *VC) race(o *Obl, base string, raceS int, batchStatus string) {
